@@ -96,6 +96,12 @@ func routeGen(kind string, sequential bool) func(r *rand.Rand, tier string) []sp
 				}
 				p.Items = append(p.Items, it)
 			}
+			if kind == "grpc" && i%4 == 1 {
+				// ids that were dialled once in vain (timed out) before their pair is established
+				for k, side := range []string{"host", "plugin"} {
+					p.Items = append(p.Items, spec.RouteItem{Dir: side, AcceptFirst: k == 0, GapMs: 300, StaleDial: true, ID: 3000000 + uint32(len(out))*4 + uint32(k)})
+				}
+			}
 			if kind == "mux" && i%4 == 2 {
 				// one pair whose accept comes late in the dial's pending window (4.0 s) and is then held for
 				// 1.3 s between pick-up and acknowledgement, across the moment the parked dial would have
@@ -316,6 +322,9 @@ func routeJudge(prop string) func(c spec.Case, evs []spec.Event, d *Death) CaseR
 			res.Counters["pairs"]++
 			if it.Reaccept {
 				res.Counters["reaccepts"]++
+			}
+			if it.StaleDial {
+				res.Counters["pairs_after_a_timed_out_dial"]++
 			}
 			if it.WaitReady {
 				res.Counters["late_accepts_with_retrying_dialler"]++
